@@ -38,6 +38,7 @@ CONF = {
     "n_2notify_free": (["C09"], "q", dict(tree=CHAIN2, NN=2, progs=[[NOTIFY(2)], [NOTIFY(2)], [POLL(1), FREE(1)]])),
     "n_par_free": (["C09"], "q", dict(tree=CHAIN2, NN=2, progs=[[NOTIFY(1), FREE(1)], [NOTIFY(2)]])),
     "n_par_free3": (["C09"], "q", dict(tree=CHAIN3, NN=3, progs=[[NOTIFY(2), FREE(2)], [NOTIFY(3)], [POLL(1)]])),
+    "n_free3": (["C09"], "q", dict(tree=CHAIN3, NN=3, progs=[[NOTIFY(1), FREE(1)], [FREE(3)], [FREE(2)]])),
     "n_new_free": (["C09"], "q", dict(tree=T((1, 0, NONE)), NN=2, progs=[[NEW(2, 1), FREE(2)], [NOTIFY(1)], [POLL(1)]])),
     "n_wait_free": (["C09", "C13"], "t", dict(tree=CHAIN2, NN=2, MaxNow=1, progs=[[WAIT(2, 1), FREE(2)], [NOTIFY(1)]])),
     "n_tree4": (["C08", "C09"], "t", dict(tree=T((1, 0, NONE), (2, 1, NONE), (3, 2, NONE), (4, 1, NONE)), NN=4, progs=[[NOTIFY(1)], [NOTIFY(3), FREE(3)], [WAIT(4), POLL(2)]])),
@@ -125,6 +126,6 @@ def note_check(prop, tier, replay, wanted_inv, wanted_or, rule_extra="", extra=N
     exer = build("h_l2r")
     # (the two configurations that exhibit the recorded findings are explored in lock-step only, where the specification's
     #  taint says which window a failure belongs to; under free-running random schedules a hang could not be attributed)
-    random_runs(run, exer, "Note", [(n, c) for n, c in cfgs if n not in ("n_free_mid", "n_2notify_free", "n_tree4")], 300 if tier == "quick" else 60000, prop, wanted_or)
+    random_runs(run, exer, "Note", [(n, c) for n, c in cfgs if n not in ("n_free_mid", "n_2notify_free", "n_tree4", "n_free3")], 300 if tier == "quick" else 60000, prop, wanted_or)
     run.cov.setdefault("conformant", True)
     return run.finish()
